@@ -168,19 +168,20 @@ pub mod blocks {
     }
 }
 
-inst!(b_twoway_fwd_3_7, [props=C12+C05+C14 tier=quick cfg=x86std+generic t=1500 role=twoway-fwd], 9, blocks::twoway::<3, 7>(false, 1));
-inst!(b_twoway_rev_3_7, [props=C12+C05+C14 tier=quick cfg=x86std+generic t=1500 role=twoway-rev], 9, blocks::twoway::<3, 7>(true, 1));
-inst!(b_twoway_fwd_4_8, [props=C12+C05+C14 tier=thorough cfg=x86std t=3600 role=twoway-fwd], 10, blocks::twoway::<4, 8>(false, 4));
-inst!(b_twoway_rev_4_8, [props=C12+C05+C14 tier=thorough cfg=x86std t=5400 role=twoway-rev], 10, blocks::twoway::<4, 8>(true, 4));
-inst!(b_twoway_fwd_5_10, [props=C12+C05+C14 tier=thorough cfg=x86std t=7200 role=twoway-fwd], 12, blocks::twoway::<5, 10>(false, 5));
-inst!(b_twoway_fwd_alpha_6_12, [props=C12+C14 tier=thorough cfg=x86std t=7200 role=twoway-fwd-small-alphabet], 14, blocks::twoway_alpha::<6, 12>(false));
-inst!(b_twoway_rev_alpha_6_12, [props=C12+C14 tier=thorough cfg=x86std t=7200 role=twoway-rev-small-alphabet], 14, blocks::twoway_alpha::<6, 12>(true));
-inst!(b_rk_fwd_4_10, [props=C12+C05+C14 tier=quick cfg=x86std+generic t=1500 role=rabinkarp-fwd], 12, blocks::rabinkarp::<4, 10>(false, 0));
-inst!(b_rk_rev_4_10, [props=C12+C05+C14 tier=quick cfg=x86std+generic t=1500 role=rabinkarp-rev], 12, blocks::rabinkarp::<4, 10>(true, 0));
-inst!(b_rk_fwd_33, [props=C12+C05+C14 tier=quick cfg=x86std t=1500 role=rabinkarp-long], 35, blocks::rabinkarp_long::<33, 35>(false));
-inst!(b_rk_rev_34, [props=C12+C05+C14 tier=thorough cfg=x86std t=1500 role=rabinkarp-long], 36, blocks::rabinkarp_long::<34, 36>(true));
+inst!(b_twoway_fwd_3_7, [props=C12 xprops=C05+C14 tier=quick cfg=x86std+generic t=1500 role=twoway-fwd uw=Suffix:8;ApproximateByteSet:5;is_equal_raw:3;_imp.0:9;_imp.1:5;_imp.2:5;oracle:5], 4, blocks::twoway::<3, 7>(false, 1));
+inst!(b_twoway_rev_3_7, [props=C12 xprops=C05+C14 tier=quick cfg=x86std+generic t=1500 role=twoway-rev uw=Suffix:8;ApproximateByteSet:5;is_equal_raw:3;_imp.0:9;_imp.1:5;_imp.2:5;oracle:5], 4, blocks::twoway::<3, 7>(true, 1));
+inst!(b_twoway_fwd_4_8, [props=C12 xprops=C05+C14 tier=thorough cfg=x86std t=3600 role=twoway-fwd uw=Suffix:10;ApproximateByteSet:6;is_equal_raw:3;_imp.0:10;_imp.1:6;_imp.2:6;oracle:6], 4, blocks::twoway::<4, 8>(false, 4));
+inst!(b_twoway_rev_4_8, [props=C12 xprops=C05+C14 tier=thorough cfg=x86std t=5400 role=twoway-rev uw=Suffix:10;ApproximateByteSet:6;is_equal_raw:3;_imp.0:10;_imp.1:6;_imp.2:6;oracle:6], 4, blocks::twoway::<4, 8>(true, 4));
+inst!(b_twoway_fwd_5_10, [props=C12 xprops=C05+C14 tier=thorough cfg=x86std t=7200 role=twoway-fwd uw=Suffix:12;ApproximateByteSet:7;is_equal_raw:3;_imp.0:12;_imp.1:7;_imp.2:7;oracle:7], 4, blocks::twoway::<5, 10>(false, 5));
+inst!(b_twoway_fwd_alpha_6_12, [props=C12 xprops=C14 tier=thorough cfg=x86std t=7200 role=twoway-fwd-small-alphabet], 14, blocks::twoway_alpha::<6, 12>(false));
+inst!(b_twoway_rev_alpha_6_12, [props=C12 xprops=C14 tier=thorough cfg=x86std t=7200 role=twoway-rev-small-alphabet], 14, blocks::twoway_alpha::<6, 12>(true));
+inst!(b_rk_fwd_4_10, [props=C12+C05 xprops=C14 tier=quick cfg=x86std+generic t=1500 role=rabinkarp-fwd uw=is_equal_raw:3;Hash:6;rabinkarp::Finder::new:6;rabinkarp::FinderRev::new:6;find_raw:12;rfind_raw:12;oracle:6], 4, blocks::rabinkarp::<4, 10>(false, 0));
+inst!(b_rk_rev_4_10, [props=C12+C05 xprops=C14 tier=quick cfg=x86std+generic t=1500 role=rabinkarp-rev uw=is_equal_raw:3;Hash:6;rabinkarp::Finder::new:6;rabinkarp::FinderRev::new:6;find_raw:12;rfind_raw:12;oracle:6], 4, blocks::rabinkarp::<4, 10>(true, 0));
+inst!(b_rk_fwd_33, [props=C12+C14 xprops=C05 tier=quick cfg=x86std t=1500 role=rabinkarp-long], 35, blocks::rabinkarp_long::<33, 35>(false));
+inst!(b_rk_rev_34, [props=C12 xprops=C05+C14 tier=thorough cfg=x86std t=1500 role=rabinkarp-long], 36, blocks::rabinkarp_long::<34, 36>(true));
 #[cfg(any(vcfg_x86std, vcfg_x86alloc, vcfg_x86avx2, vcfg_x86rel, vcfg_generic, vcfg_neon, vcfg_simd128))]
-inst!(b_shiftor_17, [props=C12+C14 tier=quick cfg=x86std t=1500 role=shiftor], 19, blocks::shiftor::<17, 17>());
+inst!(b_shiftor_16_8, [props=C12+C14 tier=quick cfg=x86std t=1500 role=shiftor], 18, blocks::shiftor::<16, 8>());
+inst!(b_shiftor_17_17, [props=C12 xprops=C14 tier=thorough cfg=x86std t=5400 role=shiftor], 19, blocks::shiftor::<17, 17>());
 
 // ---------------------------------------------------------------------------
 // packed pair: generic algorithm at N lanes, `find` (C12) and the
@@ -313,19 +314,19 @@ pub mod packed {
     }
 }
 
-inst!(pp_g4_find_n2, [props=C12+C05+C14 tier=quick cfg=x86std t=1500 role=packedpair-generic-find], 8, packed::generic::<4, 2, 16>(false, 9));
+inst!(pp_g4_find_n2, [props=C12 xprops=C05+C14 tier=quick cfg=x86std t=1500 role=packedpair-generic-find], 8, packed::generic::<4, 2, 16>(false, 9));
 inst!(pp_g4_find_n3, [props=C12+C05+C14 tier=quick cfg=x86std t=1500 role=packedpair-generic-find], 8, packed::generic::<4, 3, 16>(false, 9));
-inst!(pp_g4_find_n5, [props=C12+C05+C14 tier=quick cfg=x86std t=1500 role=packedpair-generic-find], 8, packed::generic::<4, 5, 18>(false, 9));
-inst!(pp_g4_pre_n2, [props=C11+C05+C14 tier=quick cfg=x86std t=1500 role=packedpair-generic-prefilter], 8, packed::generic::<4, 2, 16>(true, 9));
-inst!(pp_g4_pre_n3, [props=C11+C05+C14 tier=quick cfg=x86std t=1500 role=packedpair-generic-prefilter], 8, packed::generic::<4, 3, 16>(true, 9));
-inst!(pp_g4_pre_n5, [props=C11+C05+C14 tier=quick cfg=x86std t=1500 role=packedpair-generic-prefilter], 8, packed::generic::<4, 5, 18>(true, 9));
-inst!(pp_g8_find_n4, [props=C12+C05+C14 tier=thorough cfg=x86std t=3600 role=packedpair-generic-find], 12, packed::generic::<8, 4, 30>(false, 17));
-inst!(pp_g8_pre_n4, [props=C11+C05+C14 tier=thorough cfg=x86std t=3600 role=packedpair-generic-prefilter], 12, packed::generic::<8, 4, 30>(true, 17));
-inst!(pp_g2_find_n3, [props=C12+C05+C14 tier=thorough cfg=x86std t=3600 role=packedpair-generic-find], 8, packed::generic::<2, 3, 12>(false, 7));
-inst!(pp_g2_pre_n3, [props=C11+C05+C14 tier=thorough cfg=x86std t=3600 role=packedpair-generic-prefilter], 8, packed::generic::<2, 3, 12>(true, 7));
-inst!(pp_portable_n3, [props=C11+C05+C14 tier=quick cfg=generic t=1500 role=packedpair-portable-prefilter], 14, packed::portable::<3, 12>(12));
-inst!(pp_portable_n2, [props=C11+C05+C14 tier=thorough cfg=generic t=1500 role=packedpair-portable-prefilter], 14, packed::portable::<2, 12>(12));
-inst!(pp_portable_n4, [props=C11+C05+C14 tier=thorough cfg=generic t=1500 role=packedpair-portable-prefilter], 14, packed::portable::<4, 12>(12));
+inst!(pp_g4_find_n5, [props=C12 xprops=C05+C14 tier=quick cfg=x86std t=1500 role=packedpair-generic-find], 8, packed::generic::<4, 5, 18>(false, 9));
+inst!(pp_g4_pre_n2, [props=C11 xprops=C05+C14 tier=quick cfg=x86std t=1500 role=packedpair-generic-prefilter], 8, packed::generic::<4, 2, 16>(true, 9));
+inst!(pp_g4_pre_n3, [props=C11+C05 xprops=C14 tier=quick cfg=x86std t=1500 role=packedpair-generic-prefilter], 8, packed::generic::<4, 3, 16>(true, 9));
+inst!(pp_g4_pre_n5, [props=C11 xprops=C05+C14 tier=quick cfg=x86std t=1500 role=packedpair-generic-prefilter], 8, packed::generic::<4, 5, 18>(true, 9));
+inst!(pp_g8_find_n4, [props=C12 xprops=C05+C14 tier=thorough cfg=x86std t=3600 role=packedpair-generic-find], 12, packed::generic::<8, 4, 30>(false, 17));
+inst!(pp_g8_pre_n4, [props=C11 xprops=C05+C14 tier=thorough cfg=x86std t=3600 role=packedpair-generic-prefilter], 12, packed::generic::<8, 4, 30>(true, 17));
+inst!(pp_g2_find_n3, [props=C12 xprops=C05+C14 tier=thorough cfg=x86std t=3600 role=packedpair-generic-find], 8, packed::generic::<2, 3, 12>(false, 7));
+inst!(pp_g2_pre_n3, [props=C11 xprops=C05+C14 tier=thorough cfg=x86std t=3600 role=packedpair-generic-prefilter], 8, packed::generic::<2, 3, 12>(true, 7));
+inst!(pp_portable_n3, [props=C11 xprops=C05+C14 tier=quick cfg=generic t=1500 role=packedpair-portable-prefilter], 14, packed::portable::<3, 12>(12));
+inst!(pp_portable_n2, [props=C11 xprops=C05+C14 tier=thorough cfg=generic t=1500 role=packedpair-portable-prefilter], 14, packed::portable::<2, 12>(12));
+inst!(pp_portable_n4, [props=C11 xprops=C05+C14 tier=thorough cfg=generic t=1500 role=packedpair-portable-prefilter], 14, packed::portable::<4, 12>(12));
 
 // ---------------------------------------------------------------------------
 // C03 / C04: top-level substring search and the meta searcher
@@ -400,7 +401,40 @@ pub mod meta {
     }
 }
 
-inst!(m_oneshot_fwd, [props=C03+C05+C14 tier=quick cfg=x86std+generic t=1500 role=memmem-find-oneshot], 12, meta::oneshot::<4, 10>(false));
-inst!(m_oneshot_rev, [props=C04+C05+C14 tier=quick cfg=x86std+generic t=1500 role=memmem-rfind-oneshot], 12, meta::oneshot::<4, 10>(true));
+inst!(m_oneshot_fwd, [props=C03+C14 xprops=C05 tier=quick cfg=x86std+generic t=1500 role=memmem-find-oneshot uw=is_equal_raw:3;Hash:6;rabinkarp::Finder::new:6;rabinkarp::FinderRev::new:6;find_raw:12;rfind_raw:12;oracle:6], 4, meta::oneshot::<4, 10>(false));
+inst!(m_oneshot_rev, [props=C04+C05+C14 tier=quick cfg=x86std+generic t=1500 role=memmem-rfind-oneshot uw=is_equal_raw:3;Hash:6;rabinkarp::Finder::new:6;rabinkarp::FinderRev::new:6;find_raw:12;rfind_raw:12;oracle:6], 4, meta::oneshot::<4, 10>(true));
 inst!(m_finder_n0, [props=C03+C14 tier=quick cfg=x86std t=900 role=finder-empty], 4, meta::finder::<0, 20>(2, 0, 20));
 inst!(m_finder_rev_n0, [props=C04+C14 tier=quick cfg=x86std t=900 role=finderrev-empty], 4, meta::finder_rev::<0, 20>(0, 20));
+
+// --- meta searcher routes ---------------------------------------------------
+// mode 1 = SSE2 only (packed-pair SSE2 route, Rabin-Karp below min_haystack_len)
+inst!(m_finder_n2_sse2, [props=C03+C05+C14 tier=quick cfg=x86std+x86none t=1800 role=finder-packed-sse2 uw=find_in_chunk:18;is_equal_raw:3;packedpair::Finder:3;rabinkarp::Finder::find_raw:22;Hash:5;rabinkarp::Finder::new:5;with_ranker:5;oracle:4], 4,
+    meta::finder::<2, 20>(1, 0, 20));
+inst!(m_finder_n3_sse2, [props=C03 xprops=C05+C14 tier=quick cfg=x86std t=1800 role=finder-packed-sse2 uw=find_in_chunk:18;is_equal_raw:3;packedpair::Finder:3;rabinkarp::Finder::find_raw:22;Hash:5;rabinkarp::Finder::new:5;with_ranker:5;oracle:5], 4,
+    meta::finder::<3, 20>(1, 0, 20));
+inst!(m_finder_n4_sse2_36, [props=C03 xprops=C05+C14 tier=thorough cfg=x86std t=3600 role=finder-packed-sse2 uw=find_in_chunk:18;is_equal_raw:3;packedpair::Finder:4;rabinkarp::Finder::find_raw:22;Hash:6;rabinkarp::Finder::new:6;with_ranker:6;oracle:6], 4,
+    meta::finder::<4, 36>(1, 16, 36));
+// mode 2 = AVX2: the AVX2 finder falls back to its SSE2 half below 32+index bytes
+inst!(m_finder_n2_avx2, [props=C03 xprops=C05+C14 tier=quick cfg=x86std t=1800 role=finder-packed-avx2 uw=find_in_chunk:34;is_equal_raw:3;packedpair::Finder:3;rabinkarp::Finder::find_raw:22;Hash:5;rabinkarp::Finder::new:5;with_ranker:5;oracle:4], 4,
+    meta::finder::<2, 36>(2, 30, 36));
+inst!(m_finder_n3_avx2_66, [props=C03 xprops=C05+C14 tier=thorough cfg=x86std t=5400 role=finder-packed-avx2 uw=find_in_chunk:34;is_equal_raw:3;packedpair::Finder:4;rabinkarp::Finder::find_raw:22;Hash:5;rabinkarp::Finder::new:5;with_ranker:5;oracle:5], 4,
+    meta::finder::<3, 66>(2, 0, 66));
+// one-byte needle -> memchr
+inst!(m_finder_n1, [props=C03 xprops=C14 tier=quick cfg=x86std+generic t=1800 role=finder-one-byte uw=byte_by_byte:18;find_raw.0:3;find_raw.1:4;all::memchr:10], 4,
+    meta::finder::<1, 20>(1, 0, 20));
+// reverse
+inst!(m_finder_rev_n1, [props=C04 xprops=C14 tier=quick cfg=x86std+generic t=1800 role=finderrev-one-byte uw=byte_by_byte:18;find_raw.0:3;find_raw.1:4;all::memchr:10], 4,
+    meta::finder_rev::<1, 20>(0, 20));
+inst!(m_finder_rev_n2_rk, [props=C04 xprops=C05+C14 tier=quick cfg=x86std+generic t=1800 role=finderrev-rabinkarp], 17,
+    meta::finder_rev::<2, 15>(0, 15));
+inst!(m_finder_rev_n3_rk, [props=C04 xprops=C05+C14 tier=quick cfg=x86std t=1800 role=finderrev-rabinkarp], 17,
+    meta::finder_rev::<3, 15>(0, 15));
+inst!(m_finder_rev_n2_tw16, [props=C04 xprops=C05+C14 tier=quick cfg=x86std+generic t=1800 role=finderrev-twoway-routing], 19,
+    meta::finder_rev::<2, 17>(16, 17));
+inst!(m_finder_rev_n3_tw, [props=C04 xprops=C05+C14 tier=thorough cfg=x86std t=5400 role=finderrev-twoway-routing], 20,
+    meta::finder_rev::<3, 18>(15, 18));
+// no SIMD available on x86 (mode 0): Two-Way + the portable prefilter
+inst!(m_finder_n2_nosimd_rk, [props=C03 xprops=C05+C14 tier=quick cfg=x86std+generic t=1800 role=finder-nosimd-rabinkarp], 17,
+    meta::finder::<2, 15>(0, 0, 15));
+inst!(m_finder_n2_nosimd_tw, [props=C03 xprops=C05+C14 tier=thorough cfg=generic t=7200 role=finder-nosimd-twoway-prefilter], 19,
+    meta::finder::<2, 17>(0, 16, 17));
